@@ -844,6 +844,50 @@ class FnEffect:
                     self._partials[n.targets[0].id] = n.value
         return self._partials.get(name)
 
+    def _const_attr_names(self, ne):
+        """the string constants an attribute-name expression can take: a literal, or a loop / comprehension variable ranging over a
+        literal table of this function, its class or its module (its own column of the rows); None when not a finite known set"""
+        if isinstance(ne, ast.Constant) and isinstance(ne.value, str):
+            return [ne.value]
+        if not isinstance(ne, ast.Name):
+            return None
+        from .normal import _literal_items
+        for n in ast.walk(self.fn.node):
+            if not isinstance(n, (ast.For, ast.comprehension)):
+                continue
+            tg = n.target
+            if not any(isinstance(x, ast.Name) and x.id == ne.id for x in ast.walk(tg)):
+                continue
+            try:
+                items = _literal_items(self.M, self.fn, n.iter, self.fn.node)
+            except Exception:
+                items = None
+            if not items:
+                return None
+            out = []
+            for it in items:
+                if it[0] == "kv":
+                    if isinstance(tg, ast.Tuple) and len(tg.elts) == 2 and isinstance(tg.elts[0], ast.Name) and tg.elts[0].id == ne.id:
+                        v = it[1]
+                    elif isinstance(tg, ast.Tuple) and len(tg.elts) == 2 and isinstance(tg.elts[1], ast.Name) and tg.elts[1].id == ne.id:
+                        v = it[2]
+                    else:
+                        return None
+                elif isinstance(tg, ast.Name):
+                    v = it[1]
+                elif isinstance(tg, ast.Tuple) and isinstance(it[1], (ast.Tuple, ast.List)) and len(tg.elts) == len(it[1].elts):
+                    pos = next((k for k, x in enumerate(tg.elts) if isinstance(x, ast.Name) and x.id == ne.id), None)
+                    if pos is None:
+                        return None
+                    v = it[1].elts[pos]
+                else:
+                    return None
+                if not (isinstance(v, ast.Constant) and isinstance(v.value, str)):
+                    return None
+                out.append(v.value)
+            return sorted(set(out))
+        return None
+
     def call(self, e: ast.Call) -> AV:
         f = e.func
         if isinstance(f, ast.Name) and self._partial_of(f.id) is not None:
@@ -878,6 +922,23 @@ class FnEffect:
 
         # ---- builtin setattr / getattr: the same as the dunder forms (generated accessors of the receiver's family); on other
         # objects a plain field store / load
+        if isinstance(f, ast.Name) and f.id in ("setattr", "getattr") and f.id not in self.env and len(e.args) >= 2:
+            names_ = self._const_attr_names(e.args[1])
+            if names_:
+                # the name ranges over a finite table of constants: each is the plain attribute access `obj.<name>` (a generated
+                # accessor only where <name> is one)
+                recv0 = self.ev(e.args[0])
+                rk0 = self.kind(e.args[0])
+                if f.id == "getattr":
+                    out = EMPTY
+                    for nm_ in names_:
+                        out = av_join(out, self.load_attr(recv0, rk0, nm_, e))
+                    return out
+                val = self.ev(e.args[2]) if len(e.args) > 2 else EMPTY
+                for nm_ in names_:
+                    t_ = ast.copy_location(ast.Attribute(value=e.args[0], attr=nm_, ctx=ast.Store()), e)
+                    self.store_attr(recv0, rk0, t_, val, e)
+                return EMPTY
         if isinstance(f, ast.Name) and f.id in ("setattr", "getattr") and f.id not in self.env and e.args:
             recv0 = self.ev(e.args[0])
             rk0 = self.kind(e.args[0])
